@@ -315,10 +315,14 @@ func unmarshalAsCountersignature(value cbor.RawMessage) (any, error) {
 	if err == nil {
 		return &result1, nil
 	}
-	var result2 []*Countersignature
-	err = decMode.Unmarshal(value, &result2)
-	if err == nil && isCountersignatureList(result2) {
-		return result2, nil
+	// A list of countersignatures is an array: decoding a tagged item into the
+	// slice below would silently drop the tag.
+	if len(value) > 0 && value[0]>>5 == 4 { // major type 4: array
+		var result2 []*Countersignature
+		err = decMode.Unmarshal(value, &result2)
+		if err == nil && isCountersignatureList(result2) {
+			return result2, nil
+		}
 	}
 	return nil, errors.New("invalid Countersignature object / list of objects")
 }
